@@ -53,6 +53,7 @@ pub fn expand_partial<'reg: 'rc, 'rc>(
     let tname = d.name();
 
     let current_template_before = rc.get_current_template_name();
+    let partial_block_depth_before = rc.get_partial_block_depth();
     let indent_before = rc.get_indent_string().cloned();
 
     if rc.is_current_template(tname) {
@@ -124,6 +125,7 @@ pub fn expand_partial<'reg: 'rc, 'rc>(
     let _ = rc.replace_blocks(current_blocks);
     rc.set_trailing_newline(trailing_newline);
     rc.set_current_template_name(current_template_before);
+    rc.set_partial_block_depth(partial_block_depth_before);
     rc.set_indent_string(indent_before);
 
     result
